@@ -570,6 +570,17 @@ def expand_table_dispatch(modules, known, rep):
 
 
 # ---------------------------------------------------------------------------------------------- N17 constant flags
+def _exits(stmts) -> bool:
+    if not stmts:
+        return False
+    last = stmts[-1]
+    if isinstance(last, (ast.Return, ast.Raise, ast.Break, ast.Continue)):
+        return True
+    if isinstance(last, ast.If):
+        return _exits(last.body) and _exits(last.orelse)
+    return False
+
+
 def thread_constant_flags(modules, known, rep):
     """New locals that only ever hold constants and are only read by ONE following `if` statement S2 (test and body) carry
     nothing but the branch that was taken before: S2 is specialised and appended to every leaf of the `if` tree S1 in front of
@@ -613,9 +624,9 @@ def thread_constant_flags(modules, known, rep):
                         if not all(len(a.targets) == 1 and isinstance(a.targets[0], ast.Name) and isinstance(a.value, ast.Constant) for a in stores):
                             continue
                         loads = [n for n in ast.walk(fn) if isinstance(n, ast.Name) and n.id == t and isinstance(n.ctx, ast.Load)]
-                        if any(not any(n is x for x in ast.walk(s2)) for n in loads):
+                        if any(not any(n is x for st_ in stmts[i:] for x in ast.walk(st_)) for n in loads):
                             continue
-                        if any(isinstance(n, ast.Name) and n.id == t and isinstance(n.ctx, ast.Store) for n in ast.walk(s2)):
+                        if any(isinstance(n, ast.Name) and n.id == t and isinstance(n.ctx, ast.Store) for st_ in stmts[i:] for n in ast.walk(st_)):
                             continue
                         # every store is in s1 or in the straight-line run directly in front of it
                         k = i - 2
@@ -639,6 +650,13 @@ def thread_constant_flags(modules, known, rep):
                             init_nodes.append(stmts[k])
                         k -= 1
                     failed = False
+                    j_last = i
+                    for k2 in range(i, len(stmts)):
+                        if any(isinstance(n, ast.Name) and n.id in flags for n in ast.walk(stmts[k2])):
+                            j_last = k2
+                    cont = stmts[i:j_last + 1]
+                    if any(isinstance(x, (ast.For, ast.While, ast.AsyncFor, ast.Try, ast.With)) for x in cont[1:]):
+                        continue  # only plain statements / ifs are duplicated
 
                     def specialise(env):
                         class S(ast.NodeTransformer):
@@ -646,8 +664,13 @@ def thread_constant_flags(modules, known, rep):
                                 if node.id in env and isinstance(node.ctx, ast.Load):
                                     return ast.copy_location(ast.Constant(env[node.id]), node)
                                 return node
-                        c = S().visit(copy.deepcopy(s2))
-                        return _simplify([c])
+                        out_ = []
+                        for c0 in cont:
+                            c = _simplify([S().visit(copy.deepcopy(c0))])
+                            out_.extend(c)
+                            if out_ and _exits(out_):
+                                break  # the rest of the continuation is not reached on this branch
+                        return out_
 
                     def thread(block, env):
                         """returns the block with s2 specialised at every place where control leaves it by falling through"""
@@ -667,7 +690,7 @@ def thread_constant_flags(modules, known, rep):
                                 failed = True
                             out.append(st)
                         if not (out and isinstance(out[-1], (ast.Return, ast.Raise, ast.Break, ast.Continue))):
-                            if not all(f in env for f in flags if any(isinstance(n, ast.Name) and n.id == f for n in ast.walk(s2))):
+                            if not all(f in env for f in flags if any(isinstance(n, ast.Name) and n.id == f for c0 in cont for n in ast.walk(c0))):
                                 failed = True
                             out.extend(specialise(env))
                         return out
@@ -681,7 +704,7 @@ def thread_constant_flags(modules, known, rep):
                     for x in new_s1:
                         ast.fix_missing_locations(x)
                     lo = i - 1
-                    stmts[lo:i + 1] = new_s1
+                    stmts[lo:j_last + 1] = new_s1
                     for a in init_nodes:
                         if a in stmts:
                             stmts.remove(a)
